@@ -252,9 +252,14 @@ def run_recon(case):
         ksp = A_plain(xt)
     else:
         ksp = A_plain(xt) + 0.1 * crandn(rng, tuple(A_plain.oshape))
+    # SenseRecon is linear in the data: k-space of magnitude 1e-10 / 1e+8 as well
+    ks = [1.0, 1.0, 1e-10, 1e8][case["oseed"] % 4] if app.startswith("sense") else 1.0
+    if ks != 1.0:
+        ksp = ksp * ks
+        xt = xt * ks
     lam = case["lam"]
     solver = case["solver"]
-    sig = "|".join(map(str, ["recon", app, nd, traj, "w" if w is not None else "-",
+    sig = "|".join(map(str, ["recon", app, nd, traj, "w" if w is not None else "-", "ks%g" % ks,
                              "lam%g" % lam if app.startswith("sense") else "lam",
                              solver, "b%s" % case["batch"]]))
     wit = dict(case)
